@@ -101,13 +101,22 @@ and gen_case_replayed id c =
   let exact = bool_of_sx (List.hd (args (field "exact" c))) in
   let cs = match field_opt "gen" c with
     | Some g -> gen_commits g
-    | None -> tmap (fun x -> match list_of_sx x with [n; e] -> (zstr n, zstr e) | _ -> failwith "commit") (args (field "commits" c)) in
+    | None ->
+        (* round 4: an item may be (name email committer-name committer-email author-time committer-time); the property and
+           the model speak about the AUTHOR's name and e-mail only *)
+        tmap (fun x -> match list_of_sx x with
+          | [n; e] -> (zstr n, zstr e)
+          | [n; e; cn; ce; _; _] -> if cn <> n || ce <> e then count "gen_committer_differs_from_author"; (zstr n, zstr e)
+          | _ -> failwith "commit") (args (field "commits" c)) in
   let ncs = List.length cs in
   let big = ncs > big_limit in
   let nomodel = field_opt "nomodel" c <> None in
   let obs = field "obs" c in
   let lower = lower_of obs in
-  let mailmap = match field_opt "mailmap" c with Some m -> Some (zstr_t (List.hd (args m))) | None -> None in
+  (* (mmode 3): the tree entry .mailmap is a submodule (no blob in the repository): Commit.File fails, no mailmap is read *)
+  let mmode = match field_opt "mmode" c with Some m -> int_of_sx (List.hd (args m)) | None -> 0 in
+  if mmode <> 0 then count "gen_mailmap_entry_not_a_regular_file";
+  let mailmap = match field_opt "mailmap" c with Some m when mmode <> 3 -> Some (zstr_t (List.hd (args m))) | _ -> None in
   count (if exact then "gen_exact" else "gen_loose");
   if field_opt "decoy" c <> None then count "gen_mailmap_in_other_commits_only";
   (* ---- the parsed mailmap: implementation (hook) against the model of ParseMailmap ---- *)
@@ -206,6 +215,21 @@ and gen_case_replayed id c =
             else if not in_dom then count "mailmap_overlap_harmless_order"
           end else count "mailmap_keys_with_bars_description_by_model_only"
         end;
+        (* round 4: C16_mailmap_entries_honoured stated on the implementation's dictionary (in the domain): the key of every
+           entry is attached to the developer of its canonical e-mail or name.  A .mailmap that is not read at all (wrong
+           commit, entry kind, blob content "sanitised" away) fails here, not only in the fine correspondence *)
+        if !ok && mm <> [] && in_dom then begin
+          let tbl = Hashtbl.create 64 in
+          List.iter (fun (k, v) -> Hashtbl.replace tbl (ints k) v) gdict_i;
+          let look s = Hashtbl.find_opt tbl (ints (lower s)) in
+          let bad = List.filter (fun (k, (n, e)) -> match look k with
+            | None -> true
+            | Some d -> not ((n = [] && e = []) || look e = Some d || look n = Some d)) mm in
+          match bad with
+          | [] -> count "mailmap_entries_honoured"
+          | (k, _) :: _ -> fail ("mailmap-honoured: the key " ^ show_str k ^ " of a .mailmap entry is not attached to the developer of its canonical e-mail / name: " ^
+                                 (if nrev <= 40 then show_strs grev else "...") ^ where)
+        end;
         (* fine: the dictionaries and the authors are the model's, for some iteration order of the mailmap *)
         if !ok then begin
           let norm d = List.sort compare (List.map (fun (k, v) -> (ints k, v)) d) in
@@ -264,6 +288,7 @@ and seq_case id c =
   count "gen_seq_cases";
   let sub st ob = L ([A "case"; A (string_of_int id); L [A "exact"; List.nth (args st) 0]; L (A "commits" :: args (field "cs" st))]
                      @ (match field_opt "mailmap" st with Some m -> [m] | None -> [])
+                     @ (match field_opt "mmode" st with Some m -> [m] | None -> [])
                      @ [L (A "obs" :: args ob)]) in
   let describe i st =
     let a = args st in
